@@ -209,7 +209,8 @@ class Rng(ModelObject):
         def normal(interp, loc=0, scale=1, size=None):
             me.draws += 1
             me.sizes.append(size)
-            return sym_array(f"xi{me.draws}", (size,), "real")
+            shape = tuple(size) if isinstance(size, (tuple, list)) else (size,)
+            return sym_array(f"xi{me.draws}", shape, "real")
 
         normal._pyvc_model = True
         return normal
